@@ -143,6 +143,108 @@ func (l *loop) exec(args [][]byte) (raw []byte, v model.Val, status string) {
 	}
 }
 
+// batchLoop: k client connections on one node; the k proposals are committed as ONE batch (one
+// publishEntries call, as when several clients propose at once, a follower catches up, or the WAL
+// is replayed at restart).
+type batchLoop struct {
+	*loop
+	conns []*h.Conn
+}
+
+func newBatchLoop(k int) *batchLoop {
+	l := &loop{mgr: h.NewManager(), proposeC: make(chan *raftexample.RaftProposal)}
+	ctx, cancel := context.WithCancel(context.Background())
+	l.cancel = cancel
+	confC := make(chan raftpb.ConfChangeI, 16)
+	callback := map[string]chan resp.RedisData{}
+	rc, commitC := raftexample.VerifLoopbackNode()
+	l.rc = rc
+	errC := make(chan error)
+	guard := func(name string, f func()) {
+		go func() {
+			defer func() {
+				if r := recover(); r != nil {
+					rt.RecordFreePanic(name, r)
+				}
+			}()
+			f()
+		}()
+	}
+	guard("apply-loop", func() { server.VerifHandleClusterCommits(ctx, commitC, confC, l.mgr, callback, errC) })
+	b := &batchLoop{loop: l}
+	for i := 0; i < k; i++ {
+		c := h.NewConn(fmt.Sprintf("cluster%d", i))
+		b.conns = append(b.conns, c)
+		guard("HandleCluster", func() {
+			l.mgr.HandleCluster(ctx, c, l.proposeC, confC, callback, server.VerifClusterFilter())
+		})
+	}
+	return b
+}
+
+func (b *batchLoop) close() {
+	for _, c := range b.conns {
+		c.EOF()
+	}
+	b.cancel()
+}
+
+// execBatch sends command i on connection i, gathers the proposals in that order, commits them in
+// one batch and returns the replies.  Commands answered without a proposal keep their direct reply.
+func (b *batchLoop) execBatch(cmds [][][]byte) ([]model.Val, string) {
+	var ents []raftpb.Entry
+	direct := map[int]bool{}
+	for i, args := range cmds {
+		b.conns[i].Send(model.EncodeCommand(args))
+		deadline := time.Now().Add(5 * time.Second)
+	wait:
+		for {
+			select {
+			case p := <-b.proposeC:
+				b.idx++
+				ents = append(ents, raftpb.Entry{Type: raftpb.EntryNormal, Index: b.idx, Term: 1, Data: p.ToBytes()})
+				break wait
+			case <-time.After(200 * time.Microsecond):
+				if len(b.conns[i].Output()) > 0 {
+					direct[i] = true
+					break wait
+				}
+				if b.conns[i].Closed() {
+					return nil, "closed"
+				}
+				if rt.HasFreePanics() {
+					return nil, "panic"
+				}
+				if time.Now().After(deadline) {
+					return nil, "timeout"
+				}
+			}
+		}
+	}
+	if len(ents) > 0 {
+		done, ok := b.rc.VerifPublish(ents)
+		if !ok {
+			return nil, "publish-failed"
+		}
+		if done != nil {
+			select {
+			case <-done:
+			case <-time.After(5 * time.Second):
+				return nil, "apply-timeout"
+			}
+		}
+	}
+	var out []model.Val
+	for i := range cmds {
+		_, v, st := b.conns[i].TakeReply(5 * time.Second)
+		if st != "ok" {
+			return nil, fmt.Sprintf("reply %d: %s", i, st)
+		}
+		out = append(out, v)
+	}
+	return out, "ok"
+}
+
 type alone struct {
 	mgr    *server.Manager
 	conn   *h.Conn
@@ -342,6 +444,65 @@ func c14Worker(tb []byte, progress func()) []byte {
 			res.Samples = append(res.Samples, fmt.Sprintf("%q", prog))
 		}
 		l.close()
+		a.close()
+	}
+	// batched delivery: every two-command program (writer, reader) is also committed as one batch
+	// from two connections; replies and final state must equal the standalone run of the same order
+	for pi, prog := range progs {
+		if len(prog) != 2 || pi%t.Of != t.Shard || len(prog[0]) == 0 || len(prog[1]) == 0 {
+			continue
+		}
+		if pi%16 == 0 {
+			progress()
+		}
+		res.Programs++
+		bl := newBatchLoop(2)
+		a := newAlone()
+		okSeed := true
+		for _, c := range c14Seed {
+			a.exec(h.B(c...))
+			if _, st := bl.execBatch([][][]byte{h.B(c...)}); st != "ok" {
+				okSeed = false
+			}
+		}
+		name := strings.ToLower(prog[0][0]) + "+" + strings.ToLower(prog[1][0])
+		add := func(kind, detail string) {
+			shape := "batch:" + c14Shape(prog[0], tmplOf[pi])
+			k := kind + "|" + name + "|" + shape
+			if seen[k] {
+				return
+			}
+			seen[k] = true
+			res.Viol = append(res.Viol, c14Viol{Kind: kind, Cmd: name, Shape: shape, Detail: detail, Program: prog})
+		}
+		if okSeed {
+			var want []model.Val
+			for _, c := range prog {
+				_, v, _ := a.exec(h.B(c...))
+				want = append(want, v)
+			}
+			got, st := bl.execBatch([][][]byte{h.B(prog[0]...), h.B(prog[1]...)})
+			res.Commands += 2
+			if ps := rt.TakeFreePanics(); len(ps) > 0 {
+				add("panic", fmt.Sprintf("batch %q: panic %s in %s (cluster node goroutine)", prog, ps[0].Value, ps[0].Func))
+			} else if st != "ok" {
+				add("cluster-batch", fmt.Sprintf("batch %q committed in one publishEntries call: %s", prog, st))
+			} else {
+				for i := range prog {
+					if !sameReply(strings.ToLower(prog[i][0]), want[i], got[i]) {
+						add("reply-differs", fmt.Sprintf("batch %q committed in one publishEntries call: %q replies %s standalone but %s through the cluster path", prog, prog[i], want[i], got[i]))
+					}
+				}
+				ca := h.CanonOf(a.mgr.CurrentDB.VerifDump())
+				cl := h.CanonOf(bl.mgr.CurrentDB.VerifDump())
+				if d := model.DiffCanon(ca, cl, 2000); d != "" {
+					add("state-differs", fmt.Sprintf("batch %q committed in one publishEntries call: the keyspaces differ (model=standalone, implementation=cluster node): %s", prog, d))
+				} else {
+					res.Distinct += 2
+				}
+			}
+		}
+		bl.close()
 		a.close()
 	}
 	b, _ := json.Marshal(res)
